@@ -517,6 +517,38 @@ pub async fn model_compare(w: &World, line: &str, undo: &Undo, model: &mut Model
                 if model_line != impl_line {
                     out.disagree(&format!("get_opts(`{loc}`, {}) over a tampered payload (`{line}`), size={} chunk={c}", r.token(), t.size), &model_line, &impl_line);
                 }
+                // the same request through get_ranges (span fetch, length check, per-chunk open)
+                if let (RangeSpec::Bounded(s, e), Some(cur)) = (&r, &cur) {
+                    let mut runs: Vec<String> = Vec::new();
+                    let mut i = 0usize;
+                    while i < cur.len() {
+                        let same = |k: usize| k < orig.len() && cur[k] == orig[k];
+                        let mut j = i;
+                        if same(i) {
+                            while j < cur.len() && same(j) {
+                                j += 1;
+                            }
+                            runs.push(format!("{i}+{}", j - i));
+                        } else {
+                            while j < cur.len() && !same(j) {
+                                j += 1;
+                            }
+                            runs.push(format!("x{}", j - i));
+                        }
+                        i = j;
+                    }
+                    let ans = crate::check::ask(model, out, &format!("ranges {} {c} {} {s}:{e}", t.size, if runs.is_empty() { "-".to_string() } else { runs.join(",") }));
+                    let model_class = ans.split(' ').next().unwrap_or("").to_string();
+                    let impl_class = match cold.get_ranges(&Path::from(loc.as_str()), &[*s..*e]).await {
+                        Ok(_) => "ok".to_string(),
+                        Err(e) => classify(&e).to_string(),
+                    };
+                    out.model_compared += 1;
+                    out.hit("tie:tampered-payload-get_ranges");
+                    if model_class != impl_class {
+                        out.disagree(&format!("get_ranges(`{loc}`, [{s}..{e}]) over a tampered payload (`{line}`), size={} chunk={c}", t.size), &ans, &impl_class);
+                    }
+                }
             }
         } else {
             let Some(bytes) = current(w, &meta_path).await else { continue };
